@@ -121,7 +121,7 @@ uint32_t cop_deserialize_value(const uint8_t *buf, uint32_t buf_size,
         uint32_t len;
         memcpy(&len, buf + pos, 4);
         pos += 4;
-        if (pos + len > buf_size) return 0;
+        if (len > buf_size - pos) return 0;  /* no uint32_t wrap-around */
         VmString *s = vm_string_new(heap, (const char *)(buf + pos), len);
         pos += len;
         *out = val_string(s);
@@ -144,6 +144,8 @@ uint32_t cop_deserialize_value(const uint8_t *buf, uint32_t buf_size,
         uint32_t count;
         memcpy(&count, buf + pos, 4);
         pos += 4;
+        /* every element takes at least one byte */
+        if (count > buf_size - pos) { *out = val_void(); return 0; }
         VmArray *arr = vm_array_new(heap, etype, count > 0 ? count : 4);
         for (uint32_t i = 0; i < count; i++) {
             NanoValue elem;
